@@ -240,6 +240,9 @@ type cdrFileImage struct {
 	HeaderLength uint32
 	NumCdrs      uint32
 	Payloads     [][]byte
+	// BadRecord is the complete BER element (as far as the file holds it) of the first
+	// record whose header length disagrees with its payload; nil if none.
+	BadRecord []byte
 }
 
 // readCdrFile checks a file image against TS 32.297 §6.1 and returns its payloads.
@@ -306,6 +309,11 @@ func readCdrFile(data []byte) (*cdrFileImage, []string) {
 		}
 		payload := data[pos+hdr : pos+hdr+cl]
 		t, err := parseTLV(payload, 0)
+		if (err != nil || t.Total != cl) && img.BadRecord == nil {
+			if full, ferr := parseTLV(data[pos+hdr:], 0); ferr == nil {
+				img.BadRecord = data[pos+hdr : pos+hdr+full.Total]
+			}
+		}
 		switch {
 		case err != nil:
 			bad("record %d: payload of CdrLength %d is not a complete BER element: %v", n, cl, err)
@@ -325,6 +333,28 @@ func readCdrFile(data []byte) (*cdrFileImage, []string) {
 		bad("number-of-cdrs: field says %d, %d records present", img.NumCdrs, n)
 	}
 	return img, errs
+}
+
+// containerSizes returns, for a CHF record, the encoded size of every usage container
+// keyed by its local sequence number.
+func containerSizes(record []byte) map[int64]int {
+	out := map[int64]int{}
+	top, err := parseTLV(record, 0)
+	if err != nil {
+		return out
+	}
+	if l := top.child(5); l != nil {
+		for _, mu := range l.Children {
+			if cs := mu.child(1); cs != nil {
+				for _, cc := range cs.Children {
+					if c := cc.child(9); c != nil {
+						out[berInt(c.Content)] += cc.Total
+					}
+				}
+			}
+		}
+	}
+	return out
 }
 
 // bcdTime renders a time as TS 32.298 TimeStamp: YYMMDDhhmmss (BCD) S hh mm (BCD).
